@@ -14,7 +14,7 @@ func TestMain(m *testing.M) {
 	os.Exit(code)
 }
 
-func TestProp(t *testing.T)   { vt.RunAll(t, 150) }
+func TestProp(t *testing.T)   { vt.RunAll(t, 40) }
 func TestReplay(t *testing.T) { vt.ReplayAll(t) }
 
 // TestKnownFindings re-confirms every listed known finding with its minimal reproduction.
